@@ -15,10 +15,10 @@ import (
 // layoutFile is a generated source file together with what an independent reading of
 // the comment layout says goverter must extract from it.
 type layoutFile struct {
-	Source string     `json:"source"`
-	Expect []expConv  `json:"expect"`
-	Error  string     `json:"error,omitempty"` // non-empty: a wrong-kind marker, ParseDocs must fail
-	Styles []string   `json:"styles,omitempty"`
+	Source string    `json:"source"`
+	Expect []expConv `json:"expect"`
+	Error  string    `json:"error,omitempty"` // non-empty: a wrong-kind marker, ParseDocs must fail
+	Styles []string  `json:"styles,omitempty"`
 }
 
 type expConv struct {
@@ -360,6 +360,19 @@ func c19Eval(s *vh.Session, lf layoutFile) string {
 
 func TestC19(t *testing.T) {
 	s := vh.Begin(t, "C19")
+	if s.ReplayIn != "" && s.ReplayTag() == "rawvalues" {
+		var c rawValueCase
+		if err := s.LoadReplay(&c); err != nil {
+			t.Fatalf("INFRA: %v", err)
+		}
+		if msg := c19EvalRawValues(s, c); msg != "" {
+			if strings.HasPrefix(msg, "INFRA") {
+				t.Fatalf("%s", msg)
+			}
+			s.FailT(t, "rawvalues", c, msg)
+		}
+		return
+	}
 	if s.ReplayIn != "" && s.ReplayTag() == "funcdocs" {
 		var p funcDocProgram
 		if err := s.LoadReplay(&p); err != nil {
@@ -387,6 +400,7 @@ func TestC19(t *testing.T) {
 		return
 	}
 	t.Run("funcdocs", func(t *testing.T) { c19FuncDocs(t, s) })
+	t.Run("rawvalues", func(t *testing.T) { c19RawValues(t, s) })
 	rapid.Check(t, func(rt *rapid.T) {
 		lf := genLayoutFile(rt, rapid.IntRange(0, 4).Draw(rt, "wrong-kind") == 0)
 		msg := c19Eval(s, lf)
